@@ -57,6 +57,29 @@ func loadWorld(repo string) *World {
 		}
 		w.FnByKey[funcKey(fn)] = fn
 	}
+	// package-level variables that are only assigned by their initialiser are constants
+	w.MutableGlobals = map[*ssa.Global]bool{}
+	for fn := range ssautil.AllFunctions(prog) {
+		for _, b := range fn.Blocks {
+			for _, ins := range b.Instrs {
+				for _, op := range ins.Operands(nil) {
+					g, ok := (*op).(*ssa.Global)
+					if !ok {
+						continue
+					}
+					switch x := ins.(type) {
+					case *ssa.UnOp:
+						continue // load
+					case *ssa.Store:
+						if x.Addr == ssa.Value(g) && fn.Name() == "init" && fn.Pkg == g.Pkg {
+							continue
+						}
+					}
+					w.MutableGlobals[g] = true
+				}
+			}
+		}
+	}
 	// contract files
 	var files []string
 	for _, p := range repoPkgs {
